@@ -413,3 +413,84 @@ def c17(ctx):
                      "(only successful puts are constrained)", "committing a stream with the empty key is the documented "
                      "abandon request, not a put"],
         exhaustive=True)
+
+
+# --------------------------------------------------------------------------- linking
+LK_CFG = """SPECIFICATION Spec
+CONSTANTS
+  Payloads <- GenPayloads
+  Protos <- GenProtos
+  Faults <- GenFaults
+  Chunks <- GenChunks
+INVARIANTS NoUnverifiedData MismatchWins IoErrorsSurface IntactLoads Emit
+CHECK_DEADLOCK FALSE
+"""
+LS_CFG = """SPECIFICATION Spec
+CONSTANTS MaxWrites = %d
+INVARIANTS NoCommitOnFailure ResultMatchesCommit Emit
+CHECK_DEADLOCK FALSE
+"""
+
+
+@prop("C06")
+def c06(ctx):
+    quick = ctx.tier == "quick"
+    f1 = os.path.join(ctx.scratch, "lk.ndjson")
+    f2 = os.path.join(ctx.scratch, "ls.ndjson")
+    ctx.tlc("LinkingGen", LK_CFG, capture=f1, workers=4)
+    ctx.tlc("LinkStoreGen", LS_CFG % (4 if quick else 6), capture=f2, workers=4)
+    args = ["linkfault", "-in", f1, "-store", f2, "-seed", str(ctx.seed)] + ([] if quick else ["-thorough"])
+    rep = ctx.vh_run(args, timeout=3000)
+    ctx.absorb(rep, args, label="linkfault")
+    # the harness counts concrete fault scenarios; the TLC terminal states are the scenario classes
+    return ctx.finish(
+        "fault_enumeration",
+        rule="scenario classes = terminal states of Linking.tla (operation x fault kind x relative position x chunking x "
+             "decoder reaction, with the result class the specification prescribes) and LinkStore.tla (write failing "
+             "first/middle/last, failing encoder, failing open); each class is instantiated on every real stored block "
+             "(5 codecs x 7 hash functions/lengths x several values): every offset (quick: first, last and a seeded sample "
+             "of 24 middle offsets, one bit each; thorough: every bit of every offset), every truncation length, "
+             "extensions, substitutions, a read error after every delivered prefix, chunkings 1/2/whole; non-trivial = the "
+             "delivered bytes differ from the stored ones or an error is injected; distinct = distinct (class, block, "
+             "concrete fault)",
+        assumptions=["Hash is treated as injective: a collision of a truncated (4-byte) digest would be a false alarm of "
+                     "probability <= 2^-32 per case", "decoders that return success have read the stream to its end "
+                     "(stated in Linking.tla)"],
+        exhaustive=not quick)
+
+
+def lo_cfg(maxops, variants=("a", "b", "c")):
+    return """SPECIFICATION Spec
+CONSTANTS
+  Values = {1, 2}
+  Protos = {1, 2}
+  Variants = %s
+  MaxOps = %d
+INVARIANTS LinkIsFunctionOfValueAndPrototype LoadAfterStore Emit
+CHECK_DEADLOCK FALSE
+""" % (tla_strs(variants), maxops)
+
+
+@prop("C05")
+def c05(ctx):
+    quick = ctx.tier == "quick"
+    f = os.path.join(ctx.scratch, "lo.ndjson")
+    ctx.tlc("LinkOpsGen", lo_cfg(3), capture=f, workers=8)
+    args = ["linkops", "-in", f, "-seed", str(ctx.seed), "-profiles", "3" if quick else "12", "-scratch", ctx.scratch]
+    ctx.absorb(ctx.vh_run(args, timeout=3000), args, label="linkops/3")
+    if not quick:
+        ctx.tlc("LinkOpsGen", lo_cfg(4, ("a", "b")), capture=f, workers=8, timeout=2400)
+        args = ["linkops", "-in", f, "-seed", str(ctx.seed + 1), "-profiles", "3", "-scratch", ctx.scratch]
+        ctx.absorb(ctx.vh_run(args, timeout=3000), args, label="linkops/4")
+    return ctx.finish(
+        "model_checking",
+        rule="histories = every sequence of Store/ComputeLink/Load/LoadRaw/LoadPlusRaw/Fill over 2 values x 2 prototypes x "
+             "3 variants (node implementation and map insertion order) inside the bound (TLC, exhaustive); each is "
+             "replayed under rotating (prototype pair, value pair) profiles (12 prototypes: 5 codecs, CIDv0/v1, sha2-256, "
+             "sha2-512, truncated to 20 and 4, identity, sha1, md5, dbl-sha2-256) on memstore / cidlink.Memory / fsstore; "
+             "links are compared relationally (equal iff same prototype and value) and with a CID assembled independently "
+             "(hand-written varints + crypto/*); loaded nodes and raw bytes are re-hashed; non-trivial = every history; "
+             "distinct = distinct call sequences",
+        assumptions=["insertion-order independence is asserted for the key-sorting codecs only",
+                     "the expected bytes come from the registered encoder (judged separately by C02/C04)"],
+        exhaustive=True)
